@@ -30,7 +30,7 @@ ASSUMPTIONS = [
 REQUIRED_MONITORS = ["pinhole_converges", "slit_length_converges", "slit_width_converges", "slit_both_converges", "pinhole2d_increment"]
 REQUIRED_BUCKETS = {"quick": ["geom:pinhole", "geom:slit(L,0)", "geom:slit(0,W)", "geom:slit(L,W)", "geom:2d",
                               "f:poly", "f:lorentz2", "f:dampedcos", "window_crosses_zero", "acc:low", "acc:med",
-                              "acc:high", "acc:xhigh", "q<W", "sigma:interior-point-widest", "pixel_on_axis"]}
+                              "acc:high", "acc:xhigh", "q<W", "sigma:interior-point-widest", "pixel_on_axis", "q_calc:without-data-points"]}
 REQUIRED_BUCKETS["thorough"] = REQUIRED_BUCKETS["quick"]
 
 
@@ -131,6 +131,8 @@ def run_1d(case, rec):
         K = 1.0
         desc = {"length": L, "width": W}
     h0 = width/float(rng.uniform(150, 400))
+    include_q = not ((case["k"]//10) % 2 == 0 and geom in ("pinhole", "slit(L,0)"))
+    rec.bucket("q_calc:contains-data-points" if include_q else "q_calc:without-data-points")
     errs = []
     unsmeared = f(q)
     S = None
@@ -140,10 +142,14 @@ def run_1d(case, rec):
         grid = lo - 3*h + h*np.arange(n + 6)
         if lo - 3*h <= 0 and geom != "pinhole":
             grid = grid[grid > 0.02*float(q[0])*1.01] if False else grid[grid > 0]
-        qc = np.unique(np.concatenate([q, grid]))
-        # keep the calculation grid clear of near-duplicates of the data points
-        d = np.min(np.abs(qc[:, None] - q[None, :]), axis=1)
-        qc = qc[(d == 0) | (d > 0.25*h)]
+        if include_q:
+            qc = np.unique(np.concatenate([q, grid]))
+            # keep the calculation grid clear of near-duplicates of the data points
+            d = np.min(np.abs(qc[:, None] - q[None, :]), axis=1)
+            qc = qc[(d == 0) | (d > 0.25*h)]
+        else:
+            # a user grid that does not contain the data points (they fall anywhere inside its bins)
+            qc = np.unique(grid)
         if geom == "pinhole":
             res = resolution.Pinhole1D(q, s, q_calc=qc)
         else:
